@@ -94,6 +94,8 @@ type Message struct {
 	TopicName   string              `json:"topic_name,omitempty"`    // the topic the message was sent to (if retained)
 	FixedHeader packets.FixedHeader `json:"fixedheader"`             // the header properties of the message
 	Created     int64               `json:"created,omitempty"`       // the time the message was created in unixtime
+	Expiry      int64               `json:"expiry,omitempty"`        // the time the message expires in unixtime
+	Version     byte                `json:"version,omitempty"`       // the mqtt protocol version of the message
 	Sent        int64               `json:"sent,omitempty"`          // the last time the message was sent (for retries) in unixtime (if inflight)
 	PacketID    uint16              `json:"packet_id,omitempty"`     // the unique id of the packet (if inflight)
 }
@@ -127,12 +129,14 @@ func (d *Message) UnmarshalBinary(data []byte) error {
 // ToPacket converts a storage.Message to a standard packet.
 func (d *Message) ToPacket() packets.Packet {
 	pk := packets.Packet{
-		FixedHeader: d.FixedHeader,
-		PacketID:    d.PacketID,
-		TopicName:   d.TopicName,
-		Payload:     d.Payload,
-		Origin:      d.Origin,
-		Created:     d.Created,
+		FixedHeader:     d.FixedHeader,
+		PacketID:        d.PacketID,
+		TopicName:       d.TopicName,
+		Payload:         d.Payload,
+		Origin:          d.Origin,
+		Created:         d.Created,
+		Expiry:          d.Expiry,
+		ProtocolVersion: d.Version,
 		Properties: packets.Properties{
 			PayloadFormat:          d.Properties.PayloadFormat,
 			PayloadFormatFlag:      d.Properties.PayloadFormatFlag,
